@@ -12,7 +12,7 @@ pub const KINDS: [&str; 11] = ["lookups", "mutations", "attacked-lookups", "atta
 
 pub fn bad_arg_ops(rng: &mut Rng) -> Vec<OpSpec> {
     let funcs = ["resolve", "resolve_nofollow", "open", "readlink", "rename", "rmdir", "unlink", "remove_all", "creat", "mkdir", "mkdir_all", "mknod", "symlink", "hardlink", "reopen", "open_root", "proc_open", "proc_readlink"];
-    let classes = ["negfd", "negfd2", "nullpath", "nullpath2", "badmode", "sock", "badbase"];
+    let classes = ["negfd", "negfd2", "atfdcwd", "atfdcwd", "nullpath", "nullpath2", "badmode", "sock", "badbase"];
     (0..6).map(|_| OpSpec::new(Op::CBadArg { func: rng.pick(&funcs).to_string(), class: rng.pick(&classes).to_string() }).c()).collect()
 }
 
